@@ -229,12 +229,19 @@ def answer(st, mf, key, r, matches):
     )
 
 
+def NE(a, b):
+    """Python `a != b` as the code evaluates it (interpreted on scalars, opaque otherwise)."""
+    from pyvc import ops
+
+    return ops.ne_term(None, a, b)
+
+
 def cache_inv(st, mf, key, matches):
     """Every cache entry equals the answer computed from the *current* tables - as long as the cache was
     filled under the current hierarchy value (otherwise get_method resets it first)."""
     mc, dc = tbl(st, mf, "_cache")
     hc = z3.Select(st.field_array("_cached_hierarchy"), V.Val.a(mf))
-    return z3.Implies(z3.And(z3.Not(V.py_ne(hc, HCUR)), z3.Select(dc, key)), z3.And(z3.Not(V.is_none(z3.Select(mc, key))), answer(st, mf, key, z3.Select(mc, key), matches)))
+    return z3.Implies(z3.And(z3.Not(NE(hc, HCUR)), z3.Select(dc, key)), z3.And(z3.Not(V.is_none(z3.Select(mc, key))), answer(st, mf, key, z3.Select(mc, key), matches)))
 
 
 def add_cache_contracts(pack, matches, coherent, active_known):
@@ -259,7 +266,7 @@ def add_cache_contracts(pack, matches, coherent, active_known):
         c.param("self", OBJ(MultiFunction))
         c.setup(csetup)
         c.requires("tables are well-typed; isa? is reflexive and transitive", wf if keyparam else wf_nokey)
-        c.requires("a hierarchy value is not != itself", lambda a: z3.Not(V.py_ne(HCUR, HCUR)))
+        c.requires("a hierarchy value is not != itself", lambda a: z3.Not(NE(HCUR, HCUR)))
 
     def wf_nokey(a):
         class _A:  # wf() mentions a.key: for functions without a `key` parameter use the generic K
